@@ -124,9 +124,15 @@ Definition gen_route_src : list (string * string) :=
       lost): one more way for a receive to return without a connection; a
       connection it returns still comes out of its own box's channel.
     - endpointClient.Dial drawing the key under its own mutex before
-      ids.next(): same (id, key) pair, the key stays an arbitrary value. *)
+      ids.next(): same (id, key) pair, the key stays an arbitrary value.
+    - endpointClient.Dial deferring box.discard() instead of box.cleanUp():
+      discard is cleanUp followed by closing a connection that was delivered
+      but never received (C04, Sni/ShutdownSide.v: no delivery reaches a box
+      once cleanUp has unmapped it); the office operations of a dial are the
+      same, the connection closed is one nobody would ever have received. *)
 Definition accepted_variants : list (string * string) :=
-  [ ("connMailBox.receive", "{ select { case <-ctx.Done(): return nil, ctx.Err() case <-b.closed: return nil, errcode.TimeOutf(""closed"") case <-gone: select { case conn := <-b.ch: return conn, nil default: } return nil, io.ErrUnexpectedEOF case conn := <-b.ch: return conn, nil } }");
+  [ ("endpointClient.Dial", "{ if !c.options.Siding { req := &dialRequest{} resp := new(dialResponse) if err := c.tr.call(ctx, msgDial, req, resp); err != nil { return nil, err } if resp.err != nil { return nil, resp.err } return newTunnel(c.tr, resp.session), nil } token, err := c.token() if err != nil { return nil, errcode.Annotate(err, ""get side token"") } c.randMu.Lock() key := c.rand.Uint64() c.randMu.Unlock() k := &sessionKey{ ID: c.ids.next(), Key: key, } box := c.office.newBox(k) defer box.discard() resp := new(dialResponse) if c.options.DialWithAddr { req := &dialSide2Request{ session: k.ID, key: k.Key, token: token, tcpAddr: asAddr, } if err := c.tr.call(ctx, msgDialSide2, req, resp); err != nil { return nil, err } } else { req := &dialSideRequest{ session: k.ID, key: k.Key, token: token, } if err := c.tr.call(ctx, msgDialSide, req, resp); err != nil { return nil, err } } if resp.err != nil { return nil, resp.err } return box.receive(ctx, c.tr.serveDone) }");
+    ("connMailBox.receive", "{ select { case <-ctx.Done(): return nil, ctx.Err() case <-b.closed: return nil, errcode.TimeOutf(""closed"") case <-gone: select { case conn := <-b.ch: return conn, nil default: } return nil, io.ErrUnexpectedEOF case conn := <-b.ch: return conn, nil } }");
     ("endpointClient.Dial", "{ if !c.options.Siding { req := &dialRequest{} resp := new(dialResponse) if err := c.tr.call(ctx, msgDial, req, resp); err != nil { return nil, err } if resp.err != nil { return nil, resp.err } return newTunnel(c.tr, resp.session), nil } token, err := c.token() if err != nil { return nil, errcode.Annotate(err, ""get side token"") } c.randMu.Lock() key := c.rand.Uint64() c.randMu.Unlock() k := &sessionKey{ ID: c.ids.next(), Key: key, } box := c.office.newBox(k) defer box.cleanUp() resp := new(dialResponse) if c.options.DialWithAddr { req := &dialSide2Request{ session: k.ID, key: k.Key, token: token, tcpAddr: asAddr, } if err := c.tr.call(ctx, msgDialSide2, req, resp); err != nil { return nil, err } } else { req := &dialSideRequest{ session: k.ID, key: k.Key, token: token, } if err := c.tr.call(ctx, msgDialSide, req, resp); err != nil { return nil, err } } if resp.err != nil { return nil, resp.err } return box.receive(ctx, c.tr.serveDone) }") ].
 
 Definition variant_ok (n x : string) : bool :=
